@@ -297,13 +297,15 @@ def wire_sync(world: WorldT) -> None:
     if not world.wait_until(lambda: facade.is_connected, 44):
         raise HarnessError("blocking facade did not connect on a benign network")
     world.sleep(1.0)
-    switches = list(facade.blowers) + list(facade.lights)
+    # the blocking facade builds its device lists from a set(): sort, so that the harness' choice does not depend on PYTHONHASHSEED
+    switches = sorted(list(facade.blowers) + list(facade.lights), key=lambda d: d.key)
+    pumps = sorted(facade.pumps, key=lambda d: d.key)
     for op in world.case["plan"]:
         world.sleep(op["gap"])
         try:
             k = op["op"]
-            if k == "pump_mode" and facade.pumps:
-                p = facade.pumps[op["arg"] % len(facade.pumps)]
+            if k == "pump_mode" and pumps:
+                p = pumps[op["arg"] % len(pumps)]
                 p.set_mode(p.modes[op["arg"] % len(p.modes)])
                 res.probe("sync_set_value")
             elif k == "switch" and switches:
